@@ -602,7 +602,7 @@ def _compute_expression_ir(
     base_ir = {}
     original_expr = (expr[2], expr[1])
 
-    base_ir["name"] = naming.expression_name(original_expr, prefix)
+    base_ir["name"] = naming.expression_name(original_expr, prefix, index)
 
     original_expr = expr[2]
     points = expr[1]
